@@ -128,7 +128,7 @@ func VerifC05_Prune() {
 		verifFSWrite(config.VerifFS.ObjectPathname(oid), "0123456789", 0444)
 		fs.VerifObjects = append(fs.VerifObjects, fs.Object{Oid: oid, Size: 10})
 		role := verifChoose("role", roleCount)
-		if k > 0 && verifBound("all.roles.for.every.object", 0, 1) == 0 {
+		if k > 0 && verifBound("all.roles.for.every.object", 0, 0) == 0 {
 			// quick tier: the other objects are bystanders (pushed, orphaned or checked out)
 			verifAssume(role == roleOldPushed || role == roleOrphan || role == roleHead)
 		}
